@@ -1220,6 +1220,13 @@ def run_check(pid, argv=None):
             cases.append(c11_multidb.gen(ck.rng, kinds[m % 3]))
         for m in range(45 if not ck.thorough else 1000):
             cases.append(c11_multidb.gen_x(ck.rng, kinds[m % 3]))
+        # savepoint programs (the outcome of abort / commit / failed commit after savepoints and rollbacks is
+        # C11's subject too): C12's scenarios and random programs, judged by the oracle in C12 mode
+        for m in range(60 if not ck.thorough else 1500):
+            c = (gen_scenario(ck.rng, 'C12', kinds[m % 3]) if m % 2 == 0
+                 else gen_case(ck.rng, 'C12', ck.rng.choice([6, 10, 16, 24]), kinds[m % 3]))
+            c['as'] = 'C12'
+            cases.append(c)
     if pid == 'C12' and not ck.replay_path:
         import c12_blobs
         for m in range(60 if not ck.thorough else 2000):
